@@ -364,6 +364,26 @@ def r7_8(ctx):
                     tgt = norm(c.args[0].left)
                     if tgt != mw:
                         bad = (tgt, p_)
+    # on every path (expanding or not) the target never exceeds the width that is available: it is max_width itself or a
+    # min(.., max_width); padding out to min_width alone renders a table wider than its own measurement
+    over = None
+    for p_ in P:
+        for ev in p_:
+            txt = ev[2] if ev[0] == "set" else (ev[1] if ev[0] in ("do", "return") else None)
+            if not txt or "ratio_distribute(" not in txt:
+                continue
+            try:
+                e = ast.parse(txt, mode="eval").body
+            except SyntaxError:
+                continue
+            for c in ast.walk(e):
+                if isinstance(c, ast.Call) and norm(c.func) == "ratio_distribute" and len(c.args) == 2 and isinstance(c.args[0], ast.BinOp) and isinstance(c.args[0].op, ast.Sub) and "table_width" in norm(c.args[0].right):
+                    t_ = c.args[0].left
+                    bounded = norm(t_) == mw or (isinstance(t_, ast.Call) and norm(t_.func) == "min" and any(norm(a_) == mw for a_ in t_.args))
+                    if not bounded:
+                        over = (norm(t_), p_)
+    if over is not None:
+        ctx.violation(f.fq, f"ratio_distribute({over[0]} - table_width, widths)", f.where, f"the columns are padded out to `{over[0]}`, which is not bounded by the available width `{mw}`: Table(min_width=50) on a 30-cell console renders 50 cells wide while it measures 30")
     if n == 0:
         raise AnalysisError("Table._calculate_column_widths: no final `ratio_distribute(T - table_width, widths)` on a path with self.expand - the expansion step is written in a form this rule does not read")
     ctx.check(bad is None, f.fq, f"ratio_distribute({bad[0] if bad else mw} - table_width, widths)", f.where, f"with expand, the columns are padded out to `{mw}` on all {n} paths",
